@@ -117,7 +117,17 @@ ensures
         && r.kind->Literal_kind == num_spec(old(self).rest()[0], old(self).rest().skip(1)).0
         && r.kind->Literal_suffix_start == utf8_len(old(self).rest().take(1 + num_spec(old(self).rest()[0], old(self).rest().skip(1)).1)),   //@C15,C11:numeric-literal-by-the-syntax
 ''')),
-        scanner('line_comment', " old(self).prevc() == '/', peek(*old(self)) == '/',", ' k == TokenKind::LineComment,', ret='k'),
+        scanner('line_comment', " old(self).prevc() == '/', peek(*old(self)) == '/',", ''' k == TokenKind::LineComment,
+    // maximal munch: up to, not including, the next line break (or the end of the input)
+    forall|i: int| 1 <= i < eaten(*old(self), *final(self)) ==> #[trigger] old(self).rest()[i] != '\\n',             //@C15,C14:line-comment-extent
+    final(self).rest().len() > 0 ==> final(self).rest()[0] == '\\n',                                          //@C15,C14:line-comment-extent''', ret='k',
+                rewrites=[('GHOST-closure-contract', "self.eat_while(|c| c != '\\n');", "self.eat_while(|c: char| -> (r: bool) ensures r == (c != '\\n') { c != '\\n' });")],
+                ghost=[HEAD, ("self.eat_while(|c: char|", 'before', 'let ghost c1 = *self;'), ('        LineComment\n', 'before', '''proof {
+    lemma_step(*old(self), c1, *self);
+    assert forall|i: int| 1 <= i < eaten(*old(self), *self) implies #[trigger] old(self).rest()[i] != '\\n' by {
+        assert(c1.rest()[i - 1] == old(self).rest()[i]);
+    }
+}''')]),
         scanner('block_comment', " old(self).prevc() == '/', peek(*old(self)) == '*',", ''' k is BlockComment,
     // the flag is exact: terminated iff the (nested) comment is closed, and then the token ends right after its `*/`;
     // an unterminated comment runs to the end of the input
@@ -136,7 +146,10 @@ decreases self.rest().len(),'''},
 let ghost k0 = eaten(*old(self), *self); let ghost s0 = old(self).rest();
 proof { assert(self.rest() == s0.skip(k0)); if self.rest().len() > 1 { assert(self.rest().skip(1) =~= s0.skip(k0 + 1)); assert(self.rest().skip(2) =~= s0.skip(k0 + 2)); } }''',
                 ghost=[('{', 'after', 'broadcast use lex_lemmas;'), ('while let Some(c) = self.bump()', 'before', 'proof { lemma_advanced_rest(*old(self), *self); assert(self.rest() == old(self).rest().skip(1)); }')]),
-        scanner('whitespace', ' is_ws(old(self).prevc()),', ' k == TokenKind::Whitespace,', ret='k'),
+        scanner('whitespace', ' is_ws(old(self).prevc()),', ''' k == TokenKind::Whitespace,
+    // maximal munch: exactly the longest run of whitespace characters
+    forall|i: int| 0 <= i < eaten(*old(self), *final(self)) ==> is_ws(#[trigger] old(self).rest()[i]),          //@C15,C14:whitespace-maximal-munch
+    final(self).rest().len() > 0 ==> !is_ws(final(self).rest()[0]),                                        //@C15,C14:whitespace-maximal-munch''', ret='k'),
         scanner('have_dim'),
         scanner('have_pragma', '', " !r ==> (final(self).prevc() == old(self).prevc() || ascii_letter(final(self).prevc())),", ret='r'),
         scanner('have_openqasm', '', " !r ==> (final(self).prevc() == old(self).prevc() || ascii_letter(final(self).prevc())),", ret='r'),
@@ -183,7 +196,18 @@ proof { assert(self.rest() == s0.skip(k0)); if self.rest().len() > 1 { assert(se
         scanner('eat_literal_suffix'),
         ('has_timing_or_imaginary_suffix', dict(props=ALLP, rewrites=[('D7', D7_OLD, D7_NEW)],
                                                 spec='ensures *final(self) == *old(self),')),
-        scanner('eat_identifier'),
+        scanner('eat_identifier', '', '''
+    // maximal munch: nothing if the next character cannot start an identifier, otherwise it and the longest run of continue characters
+    !(peek(*old(self)) == '_' || xid_start(peek(*old(self)))) ==> eaten(*old(self), *final(self)) == 0,          //@C15,C14:identifier-maximal-munch
+    (old(self).rest().len() > 0 && (peek(*old(self)) == '_' || xid_start(peek(*old(self))))) ==> eaten(*old(self), *final(self)) >= 1
+        && (forall|i: int| 1 <= i < eaten(*old(self), *final(self)) ==> xid_continue(#[trigger] old(self).rest()[i]))
+        && (final(self).rest().len() > 0 ==> !xid_continue(final(self).rest()[0])),                            //@C15,C14:identifier-maximal-munch''',
+                ghost=[HEAD, ('        self.eat_while(is_id_continue);', 'before', 'let ghost c1 = *self;'), ('        self.eat_while(is_id_continue);', 'after', '''proof {
+    lemma_step(*old(self), c1, *self);
+    assert forall|i: int| 1 <= i < eaten(*old(self), *self) implies xid_continue(#[trigger] old(self).rest()[i]) by {
+        assert(c1.rest()[i - 1] == old(self).rest()[i]);
+    }
+}''')]),
     ])
     # ------------------------------------------------------------------ LEXSTR (oq3_parser::lexed_str)
     x = U.file(X)
